@@ -8,27 +8,25 @@ prop("C08", pkg="c08",
           "bytes, every required field removed in turn, and every field (and non-empty container element type) replaced by another wire type under strict mode; "
           "or (10%) 1-12 random Reader method calls on random bytes. All library calls run in a supervised worker process under RLIMIT_AS (16 GiB from the driver, "
           "4 GiB self-imposed in the worker); allocation is the runtime.MemStats.TotalAlloc delta, measured per probe group and per call when a group exceeds 64 MiB. "
-          "While a defect class is listed as known the probes that would only re-trigger it are not generated (negative container counts; counts 2^24..2^31-1; for the "
-          "binary protocol cut offsets that make the reader consume stale scratch bytes) and are counted in excluded_known; failures matching a listed class are "
-          "counted there too. evaluations = library decode calls (probes). Non-trivial = prefix of length > 0, any count mutation, flip, insertion not at the very "
+          "All six defects found (KF-C08-001..006) are repaired in /repo and listed as fixed, so every probe above is generated and their witnesses run as regression "
+          "cases; the avoidance of probes that would only re-trigger a defect (negative counts, counts 2^24..2^31-1, binary cut offsets inside fixed-width items) and the "
+          "exclusion of matching failures are kept in the code but are active only for an entry whose status is 'known' (then "
+          "counted in excluded_known). evaluations = library decode calls (probes). Non-trivial = prefix of length > 0, any count mutation, flip, insertion not at the very "
           "first boundary, trailing/missing/mismatch probe; distinct = FNV-64 of (type descriptor, protocol, probe group, input bytes).",
      quick=dict(shards=16, scale=1, timeout=900),
      thorough=dict(shards=16, scale=8, timeout=3000),
      vlimit_gb=16,
      technique="property-based testing (rapid) + exhaustive prefix/header-mutation enumeration per generated encoding, validity and metamorphic oracles, "
                "out-of-process supervision with address-space limit and stall watchdog",
-     level_text="Exploration: ~0.5 M decode calls per quick run on the current tree (several millions once the listed defects are repaired, because the case count is "
-                "raised when no worker restarts are needed): no panic or fatal fault; every proper prefix of a valid encoding gives errors.Is(err, io.ErrUnexpectedEOF) "
+     level_text="Exploration: ~14 M decode calls per quick run (~115 M thorough): no panic or fatal fault; every proper prefix of a valid encoding gives errors.Is(err, io.ErrUnexpectedEOF) "
                 "(io.EOF for empty input); negative / oversized counts give an error; TotalAlloc delta <= 64 MiB for inputs <= 4 KiB; undeclared fields of any type and "
                 "nesting leave the decoded value unchanged; trailing bytes, missing required fields (*MissingField) and strict-mode wire type changes (*TypeMismatch) are "
-                "reported. A violation is reported with the case and the probe id. 'Never stalls' is not part of the property: a call exceeding 1.5 s (10 s thorough) is "
-                "killed, labelled and not judged.",
+                "reported, the latter two with errors.As and, for MissingField, the id of the missing field. A call on a <= 4 KiB input that has not returned after 20 s "
+                "is reported as a totality violation (class stall). A violation is reported with the case and the probe id.",
      level_note="Trusted base: harness/tgen (types, values, Writer-based renderer with header offsets) and the worker supervision in harness/c08. Clause (b) is asserted only "
-                "for prefixes of valid encodings; the id reported inside *MissingField is not asserted (label missing.reported-id-differs); non-strict handling of a wrong "
-                "wire type is checked for totality only. While KF-C08-001/002/005 are 'known' the size-rejection and binary EOF clauses are exercised only through "
-                "probes that cannot re-trigger them (see excluded_known) - they regain full strength when the entries are flipped to 'fixed' (verified against a scratch "
-                "tree with the proposed fixes).",
-     assumptions=["a valid encoding is what the package's own Writer produces for the value's logical content (enum fields only on int32 kinds here; C13 covers the others)",
+                "for prefixes of valid encodings; non-strict handling of a wrong wire type is checked for totality only. A worker killed by a signal without a Go runtime "
+                "report (e.g. the driver's time limit killing the process group) is recorded as not judged, never as a violation; a driver time-out is INCONCLUSIVE (exit 2).",
+     assumptions=["a valid encoding is what the package's own Writer produces for the value's logical content (enum fields as i32)",
                   "every thrift element occupies at least one byte, so a count above the remaining input can only be rejected",
                   "allocation bound: 64 MiB per call for inputs <= 4 KiB (DESIGN C07/C08); hostile sizes used are >= 2^24",
-                  "stalls (a loop over a wire-controlled count at end of input) are recorded but not judged"])
+                  "'total' includes returning: 20 s without return on an input of at most 4 KiB is a violation (a million times the normal duration, beyond any load effect)"])
